@@ -249,6 +249,129 @@ def e2e_bytes(ctx, rng, quick, nontrivial):
     return out
 
 
+def listeners(ctx, rng, quick, nontrivial):
+    """C15 x listeners: the configuration GIVEN vs. the configuration consulted, for every listener kind."""
+    from lib.vcommon import hexb
+    out = {"evaluations": 0, "coverage": {}}
+    runner = ctx.runner("c15e2e", "ExtC15e2e.v")
+    # (a) the configuration object
+    cfg_ok = True
+    n_cfg = n_cfg_refused = 0
+    for pk in P.LSN_PROXY_KW + P.LSN_PROXY_KW_BAD:
+        for tag, lk, shim in P.LSN_LISTENERS + P.LSN_LISTENERS_BAD:
+            n_cfg += 1
+            out["evaluations"] += 1
+            got = P.lsn_adjustments(dict(pk, **lk))
+            if got[0] == "refused":
+                n_cfg_refused += 1
+            fails = P.lsn_config_eval(pk, lk, adj_result=got)
+            if fails:
+                cfg_ok = False
+                ctx.report("config:" + fails[0].split(" is ")[0][:40], "Adjustments(**kw) with listener options '%s': %s" % (tag, fails[0]),
+                           {"kind": "listener-config", "proxy_kw": P.lsn_kw_json(pk), "listener_kw": lk, "listener": tag,
+                            "expected": "the four proxy settings exactly as given (documented normalisation), independent of the listener options",
+                            "observed": fails[:4], "failing_input_found": True})
+    ctx.oblige("S-config: real Adjustments(**kw): trusted_proxy / trusted_proxy_count / trusted_proxy_headers / clear_untrusted_proxy_headers are the GIVEN values for every combination with the listener options (host, port, listen, ipv4, ipv6, unix_socket, unix_socket_perms, sockets=[inet|inet6|unix]); refused iff one part alone is refused", cfg_ok,
+               "%d combinations, %d refused" % (n_cfg, n_cfg_refused))
+    # (b) deployments
+    dep_ok = two_ok = k_ok = peer_ok = True
+    n_dep = n_srv = n_peers = n_triples = n_untrusted = n_trusted = 0
+    kinds = P.Counter()
+    trust = P.Counter()
+    per = 2 if quick else 25
+    for pk in P.LSN_PROXY_KW:
+        for tag, lk, shim in P.LSN_LISTENERS:
+            d = P.ListenerDeployment(pk, lk, shim)
+            try:
+                n_dep += 1
+                base = {"proxy_kw": P.lsn_kw_json(pk), "listener_kw": lk, "listener": tag, "shim": shim}
+                cmds, meta = [], []
+                for si, server in enumerate(d.servers):
+                    n_srv += 1
+                    kinds[type(server).__name__ + ("/MultiSocketServer" if type(d.top).__name__ == "MultiSocketServer" else "")] += 1
+                    fails = P.lsn_config_eval(pk, lk, adj_result=("ok", server.adj))
+                    if d.top.adj is not server.adj:
+                        fails.append("the listening server and the object returned by create_server hold different configuration objects")
+                    wrapped = server.application is not d.app
+                    if wrapped != bool(d.cfg.tp or d.cfg.clear):
+                        fails.append("application wrapped=%s, the given configuration (trusted_proxy=%r, clearing=%r) says %s" % (wrapped, d.cfg.tp, d.cfg.clear, bool(d.cfg.tp or d.cfg.clear)))
+                    if fails:
+                        dep_ok = False
+                        dd = dict(base)
+                        dd.update({"kind": "listener-config", "via": "create_server", "observed": fails[:4], "failing_input_found": True,
+                                   "expected": "server.adj carries the four proxy settings exactly as given"})
+                        ctx.report("deploy:" + fails[0].split(" is ")[0][:40], "create_server(**kw) with listener options '%s': %s" % (tag, fails[0]), dd)
+                    raws = P.LSN_RAW_PEERS[server.family]
+                    for raw in raws:
+                        n_peers += 1
+                        addr = d.reported_peer(server, raw)
+                        want_addr = P.lsn_expected_reported(server, raw)
+                        if addr != want_addr:
+                            peer_ok = False
+                            dd = dict(base)
+                            dd.update({"kind": "listener-peer", "server_index": si, "raw_peer": P.lsn_raw_json(raw), "expected": list(want_addr),
+                                       "observed": repr(addr), "failing_input_found": True})
+                            ctx.report("peer:%r" % (addr,), "%s reports the peer accepted from %r as %r, expected %r" % (type(server).__name__, raw, addr, want_addr), dd)
+                            continue
+                        untrusted = d.cfg.tp != "*" and d.cfg.tp != addr[0]
+                        trust["%s peer %s / trusted_proxy=%s: %s" % ("unix" if addr[1] is None else ("tcp6" if ":" in addr[0] else "tcp4"),
+                                                                   addr[0], d.cfg.tp, "untrusted" if untrusted else "TRUSTED")] += 1
+                        d.select(server)
+                        for ch3, lines, pad in P.lsn_hostile_requests(rng, per):
+                            n_triples += 1
+                            out["evaluations"] += 3
+                            fails, reals = P.e2e_eval_real(d, addr, ch3, lines)
+                            if reals["with"][0] == "ok":
+                                if untrusted:
+                                    n_untrusted += 1
+                                else:
+                                    n_trusted += 1
+                                nontrivial.add("lsn" + hashlib.sha1(repr((sorted(base["proxy_kw"].items()), tag, si, addr, ch3["with"])).encode()).hexdigest())
+                            rd = dict(base)
+                            rd.update({"kind": "listener", "server_index": si, "server_class": type(server).__name__, "raw_peer": P.lsn_raw_json(raw),
+                                       "reported_peer": list(addr), "configured_trusted_proxy": d.cfg.tp, "effective_adj_trusted_proxy": server.adj.trusted_proxy,
+                                       "chunks_hex": {w: [c.hex() for c in ch3[w]] for w in ch3}, "lines_hex": [[n.hex(), v.hex()] for n, v in lines],
+                                       "request": repr(b"".join(ch3["with"]))[:500]})
+                            if fails:
+                                two_ok = False
+                                dd = dict(rd)
+                                dd.update({"check": "statement", "observed": fails[:5], "failing_input_found": True,
+                                           "expected": "the peer %r is not the configured trusted_proxy %r: no proxy header may influence the metadata%s" % (addr[0], d.cfg.tp, "; none may reach the application (clearing on)" if d.cfg.clear else "")})
+                                ctx.report("listener:" + fails[0].split(" is ")[0][:40], "%s, listener '%s', peer reported as %r, configured trusted_proxy=%r: %s" % (type(server).__name__, tag, addr, d.cfg.tp, fails[0]), dd)
+                            if runner is not None:
+                                cmds.append(P.e2e_model_cmd(d, addr, ch3["with"]))
+                                meta.append((rd, reals["with"], bool(fails)))
+                if runner is not None and cmds:
+                    for line, (rd, real, stmt_failed) in zip(runner.query(cmds), meta):
+                        m = P.e2e_parse_model(line)
+                        r = P.e2e_real_canon(real)
+                        if tuple(m) != tuple(r):
+                            k_ok = False
+                            diff = "model %s, real %s" % (" ".join(str(x) for x in m[:2])[:80], " ".join(str(x) for x in r[:2])[:80])
+                            if m[0] == "ok" and r[0] == "ok":
+                                for k in sorted(set(m[1]) | set(r[1])):
+                                    if m[1].get(k) != r[1].get(k):
+                                        diff = "application: %s model %r, real %r" % (k, m[1].get(k), r[1].get(k))
+                                        break
+                            if stmt_failed:
+                                continue        # already reported, with the statement that fails
+                            dd = dict(rd)
+                            dd.update({"check": "model", "observed": diff, "expected": "the composed model run with the GIVEN configuration", "failing_input_found": True})
+                            ctx.report("listener-model:" + diff[:60], "deployment (listener '%s', peer %r): composed model under the GIVEN configuration and the real server disagree: %s" % (rd["listener"], rd["reported_peer"], diff), dd)
+            finally:
+                d.close()
+    ctx.oblige("S-deploy: create_server(**kw) for every listener kind: server.adj carries the given proxy settings, the wrapper is installed per the given configuration", dep_ok, "%d deployments, %d listening servers" % (n_dep, n_srv))
+    ctx.oblige("S-peer: the peer address handed to the channel by the real handle_accept/fix_addr is the accepted address (TCP) / ('localhost', None) (UNIX)", peer_ok, "%d accepted connections" % n_peers)
+    ctx.oblige("S-listener: end to end from bytes on every deployment: a peer whose REPORTED address differs from the CONFIGURED trusted_proxy has no influence (two-run, metadata, clearing)", two_ok, "%d untrusted triples" % n_untrusted)
+    ctx.oblige("K-listener: composed model run with the GIVEN configuration == real server (trusted and untrusted peers, incl. trusted_proxy='localhost' on a UNIX socket)", k_ok and runner is not None, "%d requests" % n_triples)
+    out["coverage"] = {"configuration_combinations": n_cfg, "refused": n_cfg_refused, "deployments": n_dep, "listening_servers": n_srv,
+                       "server_classes": dict(kinds), "accepted_connections": n_peers, "triples": n_triples,
+                       "untrusted_accepted": n_untrusted, "trusted_accepted": n_trusted, "peer_x_trusted_proxy": dict(trust),
+                       "proxy_settings": len(P.LSN_PROXY_KW), "proxy_settings_refused_alone": len(P.LSN_PROXY_KW_BAD),
+                       "listener_option_sets": len(P.LSN_LISTENERS), "listener_option_sets_refused_alone": len(P.LSN_LISTENERS_BAD)}
+    return out
+
+
 def run(ctx):
     ctx.translate({"GenRegex"})
     ctx.gate()
@@ -430,6 +553,10 @@ def run(ctx):
     e2e2 = e2e_bytes(ctx, rng, quick, nontrivial)
     evaluations += e2e2["evaluations"]
 
+    # ---- the configuration GIVEN vs. the configuration consulted, crossed with the listener kinds
+    lsn = listeners(ctx, rng, quick, nontrivial)
+    evaluations += lsn["evaluations"]
+
     if not props_ok and not ctx.violations:
         ctx.report("c15-proof-broken", "Props/C15.v no longer checks (%s)" % failing,
                    {"failing_input_found": False, "broken": "Props/C15.v via %s" % failing, "log_tail": (log or "")[-1500:]})
@@ -450,6 +577,7 @@ def run(ctx):
         "history_requests": nh,
         "primitive_cases": nprim,
         "e2e_bytes": e2e2["coverage"],
+        "listeners": lsn["coverage"],
     })
     for smp in e2e2["samples"]:
         if len(ctx.coverage["samples"]) < 5:
@@ -510,6 +638,52 @@ def replay(data):
             return bad
         finally:
             es.close()
+    if data.get("kind") == "listener-config":
+        pk, lk = P.lsn_kw_from_json(data["proxy_kw"]), data["listener_kw"]
+        fails = P.lsn_config_eval(pk, lk)
+        if data.get("via") == "create_server" and not fails:
+            d = P.ListenerDeployment(pk, lk, data.get("shim"))
+            try:
+                for server in d.servers:
+                    fails += P.lsn_config_eval(pk, lk, adj_result=("ok", server.adj))
+            finally:
+                d.close()
+        print("given %r + listener options %r\n %s" % (data["proxy_kw"], lk, fails or "the configuration object carries the given proxy settings now"))
+        return 1 if fails else 0
+    if data.get("kind") in ("listener", "listener-peer"):
+        pk, lk = P.lsn_kw_from_json(data["proxy_kw"]), data["listener_kw"]
+        d = P.ListenerDeployment(pk, lk, data.get("shim"))
+        try:
+            server = d.servers[data["server_index"]]
+            raw = P.lsn_raw_from_json(data["raw_peer"])
+            addr = d.reported_peer(server, raw)
+            print("given %r + listener options %r -> %s; effective adj.trusted_proxy=%r\n accepted from %r, reported as %r"
+                  % (data["proxy_kw"], lk, type(server).__name__, server.adj.trusted_proxy, raw, addr))
+            if addr != P.lsn_expected_reported(server, raw):
+                print(" peer misreported")
+                return 1
+            if data["kind"] == "listener-peer":
+                return 0
+            ch3 = {w: [bytes.fromhex(c) for c in data["chunks_hex"][w]] for w in data["chunks_hex"]}
+            lines = [(bytes.fromhex(n), bytes.fromhex(v)) for n, v in data["lines_hex"]]
+            d.select(server)
+            fails, reals = P.e2e_eval_real(d, addr, ch3, lines)
+            bad = 1 if fails else 0
+            print(" request=%s" % data.get("request"))
+            for w in ("with", "without"):
+                print(" %-8s -> %s" % (w, P.short(reals[w]) if reals[w][0] == "ok" else reals[w][0]))
+            if data.get("check") == "model":
+                from lib.vcommon import build_runner, Runner
+                path, _log = build_runner("c15e2e", "ExtC15e2e.v")
+                if path:
+                    m = P.e2e_parse_model(Runner(path).query([P.e2e_model_cmd(d, addr, ch3["with"])])[0])
+                    if tuple(m) != tuple(P.e2e_real_canon(reals["with"])):
+                        print(" composed model (given configuration) and real server still disagree")
+                        bad = 1
+            print(" %s" % (fails[:5] if fails else ("holds now" if not bad else "")))
+            return bad
+        finally:
+            d.close()
     if data.get("kind") == "install":
         print("install condition mismatch for %r; re-run the check" % data.get("config"))
         return 1
